@@ -200,15 +200,17 @@ func (p *Conn) checkProxyHeader() error {
 	// initial real src/dst address
 	srcAddr := net.JoinHostPort(hdr.SourceAddress.String(), fmt.Sprintf("%d", hdr.SourcePort))
 	p.srcAddr, err = net.ResolveTCPAddr(hdr.TransportProtocol.String(), srcAddr)
-	if err != nil { /* never go here */
+	if err != nil { /* e.g. UDP or UNIX family */
 		p.Close()
+		p.headerErr = err
 		return err
 	}
 
 	dstAddr := net.JoinHostPort(hdr.DestinationAddress.String(), fmt.Sprintf("%d", hdr.DestinationPort))
 	p.dstAddr, err = net.ResolveTCPAddr(hdr.TransportProtocol.String(), dstAddr)
-	if err != nil { /* never go here */
+	if err != nil { /* e.g. UDP or UNIX family */
 		p.Close()
+		p.headerErr = err
 		return err
 	}
 
